@@ -184,6 +184,12 @@ def _run(prop, tier, seed, replay, no_build, t0):
     # 4. corpus + generated cases: correspondence and direct oracle
     mod.check(ctx)
 
+    if os.environ.get("VERIF_DEBUG"):
+        for mm in ctx.mismatches[: int(os.environ["VERIF_DEBUG"])]:
+            print("MISMATCH", json.dumps(mm["case"])[:400])
+            print("   impl :", str(mm["impl"])[:700])
+            print("   model:", str(mm["model"])[:700])
+
     # 5. known / fixed findings are replayed on the implementation
     known_lines, fixed_regressed = [], []
     known_sigs = {}
